@@ -5,7 +5,7 @@
    srv1_layout, srv1_shape_ok). *)
 From Coq Require Import ZArith List Bool.
 From SP Require Import Base.Result Base.Bytes Model.SpacePacket Model.PusTc Model.PusTm Model.ReqId Model.Fields Model.Srv1
-  Spec.SpacePacketSpec Spec.PusSpec Spec.Srv1Spec Proofs.ReqIdProofs Proofs.Srv1Proofs.
+  Spec.SpacePacketSpec Spec.PusSpec Spec.Srv1Spec Proofs.ReqIdProofs Proofs.Srv1Proofs Proofs.PusHeaderRefusal.
 Import ListNotations.
 Open Scope Z_scope.
 
@@ -212,6 +212,13 @@ Print Assumptions C15_srv1_create_for_tc.
 
 (* non-vacuity of the hypotheses of C15_srv1_unpack_pack: a step-failure report, version 5,
    2-octet step ID 0xffff, 4-octet code 0xffffffff, three octets of failure data, 3-octet timestamp *)
+(* the report's telemetry header pushed out of range (report.pus_tm.space_packet_header.seq_count =
+   20000): Service1Tm.pack() refuses with ValueError, nothing is encoded *)
+Theorem C15_srv1_header_out_of_range_refused : forall s, ~ sph_in_range (tm_sph (s1_tm s)) ->
+  srv1_pack s = Err EValue.
+Proof. exact srv1_header_out_of_range_refused. Qed.
+Print Assumptions C15_srv1_header_out_of_range_refused.
+
 Example C15_srv1_nonvacuous :
   srv1_args_valid 2047 6 16383 7 15 65535 [1; 2; 3] ex_h (Some (2, 65535)) (Some (4, 4294967295, [9; 8; 7])) /\
   srv1_shape_ok 6 (has (Some (2, 65535))) (has (Some (4, 4294967295, [9; 8; 7]))) /\
